@@ -243,6 +243,19 @@ type vfSide struct {
 type vfPair struct {
 	Net  *vfNet
 	C, S *vfSide
+	// Early: payloads each side writes right after its own HandshakeContext returned nil (HandshakeTimed only)
+	Early int
+}
+
+func (p *vfPair) earlyWrites(s *vfSide) {
+	if s.Err != nil {
+		return
+	}
+	for k := 0; k < p.Early; k++ {
+		_ = s.Conn.SetWriteDeadline(time.Now().Add(time.Second))
+		_, _ = s.Conn.Write([]byte(fmt.Sprintf("early-%s-%d", s.Name, k)))
+	}
+	_ = s.Conn.SetWriteDeadline(time.Time{})
 }
 
 const (
@@ -287,8 +300,8 @@ func (p *vfPair) HandshakeTimed(timeout time.Duration) (cAt, sAt time.Duration) 
 	defer cancel()
 	var wg sync.WaitGroup
 	wg.Add(2)
-	go func() { defer wg.Done(); p.C.Err = p.C.Conn.HandshakeContext(ctx); cAt = p.Net.Now() }()
-	go func() { defer wg.Done(); p.S.Err = p.S.Conn.HandshakeContext(ctx); sAt = p.Net.Now() }()
+	go func() { defer wg.Done(); p.C.Err = p.C.Conn.HandshakeContext(ctx); cAt = p.Net.Now(); p.earlyWrites(p.C) }()
+	go func() { defer wg.Done(); p.S.Err = p.S.Conn.HandshakeContext(ctx); sAt = p.Net.Now(); p.earlyWrites(p.S) }()
 	wg.Wait()
 
 	return cAt, sAt
